@@ -48,12 +48,17 @@ def pool(tier):
 
 
 def cases(tier):
-    n = len(pool(tier))
+    P = pool(tier)
+    n = len(P)
     for op in S.BINOPS:
         for i in range(n):
             for j in range(n):
                 for mode in ('lit', 'cell'):
                     yield [tier, op, i, j, mode]
+                # one operand in a cell, the other typed (an error / a blank on either side)
+                if P[i][0][0] in ('e', 'blank') or P[j][0][0] in ('e', 'blank') or tier == 'thorough':
+                    yield [tier, op, i, j, 'cell-lit']
+                    yield [tier, op, i, j, 'lit-cell']
     for op in UNARY:
         for i in range(n):
             for mode in ('lit', 'cell', 'paren'):
@@ -66,7 +71,15 @@ def build(case):
     a, ta = P[i]
     b, tb = P[j] if j is not None else (None, None)
     inputs = {}
-    if mode == 'cell':
+    if mode in ('cell-lit', 'lit-cell'):
+        la, lb = literal(a), literal(b)
+        if (mode == 'lit-cell' and la is None) or (mode == 'cell-lit' and lb is None):
+            return None
+        sa, sb = ('B1', lb) if mode == 'cell-lit' else (la, 'C1')
+        inputs['B1' if mode == 'cell-lit' else 'C1'] = a if mode == 'cell-lit' else b
+        sa = '(%s)' % sa if sa.startswith('-') else sa
+        sb = '(%s)' % sb if sb.startswith('-') else sb
+    elif mode == 'cell':
         sa, sb = 'B1', 'C1'
         inputs['B1'] = a
         if b is not None:
@@ -103,7 +116,8 @@ def run_case(case):
     op, mode = case[1], case[4]
     oc = '%s:%s' % ('cmp' if op in S.CMP else op, got[0] if got[0] != 'e' else got[1])
     fails = []
-    if not S.accepted(got, exp):
+    # + - * / % and the unary minus are single IEEE operations: the result is exact, not "close"; only ^ keeps a tolerance
+    if not S.accepted(got, exp, 1e-12 if op == '^' else 0.0):
         cls = 'bad-value' if got[0] == 'BAD' else 'wrong-result'
         fails.append(Fail(cls, got=got, exp=sorted(map(str, exp)), op=op, a=ta, b=tb, ak=a[0], bk=b[0] if b else None,
                           mode=mode, gotk=got[0] if got[0] != 'BAD' else got[1], formula=f,
@@ -113,6 +127,29 @@ def run_case(case):
 
 _VALS = [v for v, _ in POOL_Q]
 SHARED_J = [_VALS.index(v) for v in (N(0), N(1), T('3'), T('abc'), B(True), BLANK, ERRV[0])]
+
+
+# ---- x% for every integer and every tenth up to 2000: one IEEE division by 100, exactly
+def percent_cases(tier):
+    for lo in range(-2000, 2000, 250):
+        yield ['pct', lo, lo + 250]
+
+
+def run_percent(case):
+    from xl.evalcell import eval_formula
+    _, lo, hi = case
+    fails, n = [], 0
+    for k in range(lo * 10, hi * 10):
+        x = k / 10.0
+        for f, inputs in (('=B1%', {'B1': N(x)}), ('=(%r)%%' % x, {})):
+            if k % 10 and inputs == {}:
+                continue
+            got = eval_formula(f, inputs)
+            n += 1
+            if got != N(x / 100.0):
+                fails.append(Fail('wrong-result', got=got, exp=[str(N(x / 100.0))], op='%', a='n:sweep', b=None, ak='n', bk=None, mode='cell' if inputs else 'lit',
+                                  gotk=got[0], formula=f, av=x, bv=None))
+    return result(n, ['pct:sweep'], fails[:10])
 
 
 # ---- a unary operator inside another operator: what the unary operator returns is what the outer operator sees -------------
@@ -182,11 +219,14 @@ _run_single = run_case
 def run_case(case):
     if case[0] == 'nested':
         return run_nested(case)
+    if case[0] == 'pct':
+        return run_percent(case)
     return run_shared(case) if case[0] == 'shared' else _run_single(case)
 
 
 def run(ctx):
     ctx.explore(run_case, shared_cases(ctx.tier), chunksize=128, label='operand_used_twice')
     ctx.explore(run_case, nested_unary_cases(ctx.tier), chunksize=128, label='unary_inside_binary')
+    ctx.explore(run_case, percent_cases(ctx.tier), chunksize=1, label='percent_sweep')
     ctx.explore(run_case, cases(ctx.tier), chunksize=256)
     return {'pool_size': len(pool(ctx.tier)), 'operators': len(S.BINOPS) + len(UNARY)}
